@@ -781,6 +781,9 @@ def oracle(inp):
       except Exception:
         cond_aug = float("inf")
       slack_c = 1e-14 * cond_aug * (1.0 + abs(b1) + float(numpy.abs(m3).max()))
+      # ... and by the rounding of the kernel entries themselves (sqrt amplification of the C0 Matern at coincident points), the bound tol_b of the
+      # batch-size clause above: the failure model's probability is evaluated point by point here and in one batch by the library
+      slack_c += 8 * tol_b
       if not math.isfinite(slack_c) or slack_c > 1e-3:
         continue    # too ill-conditioned to decide a value clause (the incumbent clause above was decided)
       for i in range(len(xs)):
